@@ -5,7 +5,8 @@
    budget being the number of storage calls after which the process dies (counted from the first
    call of Start, so deaths inside start-up recovery — also of an incarnation that is itself
    recovering from a death — are included); [run_history c store0 h] starts from the empty store. *)
-From Verif Require Import Common.Base C01.Model C01.Spec C01.Proofs1 C01.Proofs2 C01.Proofs3 C01.Proofs4 C01.Proofs5 C01.Proofs6.
+From Verif Require Import Common.Base C01.Model C01.Spec C01.Proofs1 C01.Proofs2 C01.Proofs3 C01.Proofs4 C01.Proofs5 C01.Proofs6 C01.Proofs7 C01.Translated.
+From Verif Require Generated.C01Queue Generated.C01Storage.
 From Coq Require Import Sorted Permutation.
 
 (* ---- codecs ---- *)
@@ -85,9 +86,10 @@ Print Assumptions pq_at_least_once_when_drained.
    than one drain incarnation is needed because a request whose re-put at start-up is refused by
    the capacity check stays listed under "di" and is moved back by a LATER start (at least one
    per start once the queue is empty): k >= |di| + 2.  [fits c]: every request fits into the empty
-   queue (otherwise it is never accepted in the first place). *)
+   queue (otherwise it is never accepted in the first place).  [blockOnOverflow c = false] is NECESSARY: see
+   pq_at_least_once_blocking_refuted below. *)
 Theorem pq_at_least_once : forall c h n k,
-  fits c ->
+  blockOnOverflow c = false -> fits c ->
   (pending (fst (run_history c store0 h)) <= n)%nat ->
   (length (di_of (fst (run_history c store0 h))) + 2 <= k)%nat ->
   forall r, In r (accepted (snd (run_history c store0 (h ++ drains n k)))) ->
@@ -98,7 +100,7 @@ Print Assumptions pq_at_least_once.
 (* one clean drain incarnation empties the range [ri, wi) and never lengthens "di"; started on an
    empty range it leaves nothing durable or strictly shortens "di" (progress of the retry) *)
 Theorem pq_drain_progress : forall c h n,
-  fits c ->
+  blockOnOverflow c = false -> fits c ->
   let st := fst (run_history c store0 h) in
   (pending st <= n)%nat ->
   let st' := i_store (incarnation c st (drain_script n) None) in
@@ -163,3 +165,55 @@ Print Assumptions split_handoff_final_only_if_all_pieces_final.
 Theorem split_handoff_order_irrelevant : forall l l', Permutation l l' -> combine_outcomes l = combine_outcomes l'.
 Proof. exact combine_perm. Qed.
 Print Assumptions split_handoff_order_irrelevant.
+
+(* ---- block_on_overflow (finding C01-RECOVERY-BLOCKS) ----
+   With blockOnOverflow the first sentence is FALSE of the faithful model: start-up recovery re-puts the requests that
+   were in flight through putInternal, which then waits on hasMoreSpace — while no consumer is running yet.  Witness:
+   capacity 2, request 1 in flight, the queue refilled with 2 and 3, restart: Start parks for ever in every later
+   incarnation, and the accepted request 2 is never handed off whatever number of restarts follows. *)
+Theorem pq_at_least_once_blocking_refuted :
+  exists c h r, blockOnOverflow c = true /\ fits c /\
+    In r (accepted (snd (run_history c store0 h))) /\
+    forall n k, ~ In r (handoffs (snd (run_history c store0 (h ++ drains n k)))).
+Proof. exact at_least_once_blocking_refuted_l. Qed.
+Print Assumptions pq_at_least_once_blocking_refuted.
+
+(* a parked Start performs no storage call and logs nothing: the store is unchanged (durability is untouched;
+   pq_durable_or_final holds for EVERY configuration, blocking or not) *)
+Theorem pq_parked_start_changes_nothing : forall c st sc,
+  run_act None st (initClient c) = (st, None, None) ->
+  i_store (incarnation c st sc None) = st /\ i_events (incarnation c st sc None) = [].
+Proof. exact parked_changes_nothing. Qed.
+Print Assumptions pq_parked_start_changes_nothing.
+
+(* ---- translator obligations (T1 re-reads the Go source on every run; see C01/Translated.v) ---- *)
+Theorem t1_bytesToItemIndex_matches_go : forall buf,
+  index_result_code (bytesToItemIndex buf) =
+  C01Queue.go_bytesToItemIndex (buf_isnil buf) (buf_len buf) (buf_le64 buf).
+Proof. exact bytesToItemIndex_matches_go_l. Qed.
+Print Assumptions t1_bytesToItemIndex_matches_go.
+
+Theorem t1_method_sets_match_go :
+  map fst modelled_persistentQueue = C01Queue.ms_persistentQueue /\
+  C01Queue.ms_indexDone = modelled_indexDone /\
+  C01Queue.ms_refCountDone = modelled_refCountDone /\
+  C01Queue.ms_retrySender = modelled_retrySender.
+Proof. exact method_sets_match_go_l. Qed.
+Print Assumptions t1_method_sets_match_go.
+
+Theorem t1_storage_optypes_match_go :
+  C01Storage.go_optypes = [C01Storage.go_op_Get; C01Storage.go_op_Set; C01Storage.go_op_Delete] /\
+  NoDup C01Storage.go_optypes /\
+  (forall o, In (sop_type o) C01Storage.go_optypes) /\
+  (forall t, In t C01Storage.go_optypes -> exists o, sop_type o = t).
+Proof. exact optypes_match_go_l. Qed.
+Print Assumptions t1_storage_optypes_match_go.
+
+(* itemDispatchingFinish with storage errors (its error-only fallback path: combined batch, then delete-only, then
+   list-only; a failing batch applies nothing): whichever batches fail, the crash invariant is kept *)
+Theorem pq_finish_storage_errors_never_lose : forall E v outs st index f1 f2 f3,
+  St E v outs st -> fin_hand E ->
+  (forall r, iget index (s_items st) = Some r -> In r (finals E)) ->
+  Icr E (fst (fst (finish_with_errors f1 f2 f3 v index st))).
+Proof. exact finish_errors_keep_invariant_l. Qed.
+Print Assumptions pq_finish_storage_errors_never_lose.
